@@ -202,6 +202,34 @@ theorem pulledFrom_prefix_fits (limit : Nat) (items : List Item) (buf : Bytes)
           simp [List.take, itemsBytes, itemLen, List.length_append] at ih' ⊢
           omega
 
+/-- when the loop overflows on an error-free stream, the pulled items together exceed the limit:
+with `pulledFrom_prefix_fits` this makes the pulled prefix the *shortest* one over the limit -/
+theorem pulledFrom_overflow_exceeds (limit : Nat) (items : List Item) (buf : Bytes) (k : Nat)
+    (h : finish (runFrom limit (.run buf) items) = .overflow k) :
+    buf.length + itemsBytes (items.take (pulledFrom limit (.run buf) items).1) > limit := by
+  induction items generalizing buf with
+  | nil => simp [finish] at h
+  | cons it rest ih =>
+    cases it with
+    | err => simp [step, finish] at h
+    | chunk c =>
+      by_cases hc : buf.length + c.length > limit
+      · simp [pulledFrom, step, hc, itemsBytes, itemLen]
+      · simp only [runFrom_cons, step, hc, if_false] at h
+        have := ih (buf ++ c) h
+        simp only [pulledFrom, step, hc, if_false]
+        simp [List.take, itemsBytes, itemLen, List.length_append] at this ⊢
+        omega
+
+theorem stepPoll_fold (limit : Nat) (ps : List PollEv) (s : St) :
+    ps.foldl (stepPoll limit) s = runFrom limit s (readyItems ps) := by
+  induction ps generalizing s with
+  | nil => rfl
+  | cons p rest ih =>
+    cases p with
+    | ready it => simpa [stepPoll, readyItems] using ih (step limit s it)
+    | pending => simpa [stepPoll, readyItems] using ih s
+
 /-! ### decoder -/
 
 /-- the law the black-box decompressors are assumed to satisfy: fed any segmentation of a wire
